@@ -387,25 +387,32 @@ func vecReuse(ctx *Ctx, t *tape.Tape, a, b []world.Op, cut int, w, h int, op dra
 	rect := image.Rect(0, 0, w, h)
 	img0 := image.NewRGBA(rect)
 	vz := vec.NewRasterizer(img0)
+	tz := &world.TameRaster{Rasterizer: vz, Limit: 50000}
 	var r render.Renderer
-	r.SetRasterizer(vz, rect)
+	r.SetRasterizer(tz, rect)
 	pa, _, _ := guard(func() { world.Run(world.Target{Dst: &r}, a[:cut]) })
-	if pa {
+	if pa || tz.Bad {
 		if ctx.Stats != nil {
-			ctx.Stats.Add("vec_backend_panicked_in_first_use", 1)
+			if pa {
+				ctx.Stats.Add("vec_backend_panicked_in_first_use", 1)
+			} else {
+				ctx.Stats.Add("vec_first_use_left_the_tame_range", 1)
+			}
 		}
 		return nil
 	}
 	img1 := image.NewRGBA(rect)
 	vz.Dst = img1
 	vz.DrawOp = op
+	tz.Hash = 0
 	p1, _, m1 := guard(func() { world.Run(world.Target{Dst: &r}, b) })
 
 	img2 := image.NewRGBA(rect)
 	vz2 := vec.NewRasterizer(img2)
 	vz2.DrawOp = op
+	tz2 := &world.TameRaster{Rasterizer: vz2, Limit: 50000}
 	var r2 render.Renderer
-	r2.SetRasterizer(vz2, rect)
+	r2.SetRasterizer(tz2, rect)
 	p2, _, m2 := guard(func() { world.Run(world.Target{Dst: &r2}, b) })
 	ctx.Beat()
 	if p1 != p2 {
@@ -418,6 +425,24 @@ func vecReuse(ctx *Ctx, t *tape.Tape, a, b []world.Op, cut int, w, h int, op dra
 		return nil
 	}
 	ctx.Fold(fnv(img2.Pix))
+	describe := func(v *report.Violation) *report.Violation {
+		v.Trace = append(v.Trace, fmt.Sprintf("first use A (aborted at %d of %d), image %dx%d, DrawOp %v:", cut, len(a), w, h, op))
+		v.Trace = append(v.Trace, world.FormatOps(a[:cut], 30)...)
+		v.Trace = append(v.Trace, "second use B:")
+		v.Trace = append(v.Trace, world.FormatOps(b, 40)...)
+		return v
+	}
+	if tz.Hash != tz2.Hash || tz.Bad != tz2.Bad {
+		return describe(viol("C17", "renderer-reuse", "the path segments handed to the vec back end differ between a reused Renderer and a fresh one (segment hash %016x vs %016x)", tz.Hash, tz2.Hash))
+	}
+	if tz.Bad {
+		// identical segment streams, part of which was withheld from x/image/vector
+		if ctx.Stats != nil {
+			ctx.Stats.Add("evaluations", 1)
+			ctx.Stats.Add("vec_second_use_left_the_tame_range_(segments compared, pixels not)", 1)
+		}
+		return nil
+	}
 	if !bytes.Equal(img1.Pix, img2.Pix) {
 		n, first := 0, -1
 		for i := range img1.Pix {
@@ -428,12 +453,7 @@ func vecReuse(ctx *Ctx, t *tape.Tape, a, b []world.Op, cut int, w, h int, op dra
 				n++
 			}
 		}
-		v := viol("C17", "renderer-reuse", "pixels differ between a reused Renderer+vec.Rasterizer and fresh ones: %d of %d bytes, first at pixel (%d,%d)", n, len(img1.Pix), (first/4)%w, (first/4)/w)
-		v.Trace = append(v.Trace, fmt.Sprintf("first use A (aborted at %d of %d), image %dx%d, DrawOp %v:", cut, len(a), w, h, op))
-		v.Trace = append(v.Trace, world.FormatOps(a[:cut], 30)...)
-		v.Trace = append(v.Trace, "second use B:")
-		v.Trace = append(v.Trace, world.FormatOps(b, 40)...)
-		return v
+		return describe(viol("C17", "renderer-reuse", "pixels differ between a reused Renderer+vec.Rasterizer and fresh ones: %d of %d bytes, first at pixel (%d,%d)", n, len(img1.Pix), (first/4)%w, (first/4)/w))
 	}
 	if ctx.Stats != nil {
 		st := ctx.Stats
@@ -753,16 +773,18 @@ func init() {
 					"twice_runs":                         s.Counters["twice_runs"],
 					"AB_pairs_with_every_cut_enumerated": map[string]int64{"encoder": s.Counters["enumerated_AB_pairs_encoder"], "renderer": s.Counters["enumerated_AB_pairs_renderer"]},
 					"reach_probes": map[string]int64{
-						"Encoder aborted inside an open path":              s.Counters["probe_encoder_aborted_inside_open_path"],
-						"Renderer aborted inside an open path":             s.Counters["probe_renderer_aborted_inside_open_path"],
-						"second use drew something":                        s.Counters["probe_second_use_drew_something"],
-						"second use painted a gradient":                    s.Counters["probe_second_use_painted_gradient"],
-						"more than one abort/restart round":                s.Counters["probe_multiple_abort_restart_rounds"],
-						"Bytes asked twice inside an open path":            s.Counters["probe_bytes_twice_inside_open_path"],
-						"vec second use left pixels":                       s.Counters["probe_vec_second_use_left_pixels"],
-						"vec runs skipped (coordinates not moderate)":      s.Counters["vec_skipped_untame"],
-						"vec back end panicked in the first use (skipped)": s.Counters["vec_backend_panicked_in_first_use"],
-						"vec back end panicked in both arms (skipped)":     s.Counters["vec_backend_panicked_in_both_arms"],
+						"Encoder aborted inside an open path":                                                       s.Counters["probe_encoder_aborted_inside_open_path"],
+						"Renderer aborted inside an open path":                                                      s.Counters["probe_renderer_aborted_inside_open_path"],
+						"second use drew something":                                                                 s.Counters["probe_second_use_drew_something"],
+						"second use painted a gradient":                                                             s.Counters["probe_second_use_painted_gradient"],
+						"more than one abort/restart round":                                                         s.Counters["probe_multiple_abort_restart_rounds"],
+						"Bytes asked twice inside an open path":                                                     s.Counters["probe_bytes_twice_inside_open_path"],
+						"vec second use left pixels":                                                                s.Counters["probe_vec_second_use_left_pixels"],
+						"vec runs skipped (coordinates not moderate)":                                               s.Counters["vec_skipped_untame"],
+						"vec back end panicked in the first use (skipped)":                                          s.Counters["vec_backend_panicked_in_first_use"],
+						"vec first use produced segments beyond +-50000 px (skipped)":                               s.Counters["vec_first_use_left_the_tame_range"],
+						"vec second use produced segments beyond +-50000 px (segment streams compared, pixels not)": s.Counters["vec_second_use_left_the_tame_range_(segments compared, pixels not)"],
+						"vec back end panicked in both arms (skipped)":                                              s.Counters["vec_backend_panicked_in_both_arms"],
 					},
 					"simulated_time": "none; the unit is one Destination call, 'recovery' means the very next intact use yields exactly the fault-free result",
 					"components": map[string]string{
